@@ -2,7 +2,8 @@
 from vfam import *  # noqa
 from remerkleable.tree import to_gindex, get_depth
 
-THEOREMS = []
+THEOREMS = ["C12_default_node", "C12_zero_wellformed", "C12_equals_explicit"]
+PARTIAL = ["C12_navigable (no summary in the way of fixed structure) and the encoding of the default are covered by the correspondence (navigable, default_encoding observables), not yet by a theorem"]
 COQ_IMPORTS = ["RM.Types", "RMR.RunV"]
 COQ_FN = "RunV.run_c12"
 COQ_CASE_TY = "(ty * list N)"
